@@ -1,5 +1,5 @@
 //! C16: public Time / Duration / TimeInterval / WireTimestamp API on bit patterns.
-use fixed::types::{I48F16, I96F32, U96F32};
+use fixed::types::{I96F32, U96F32};
 use statime::time::{Duration, Time};
 use svh::*;
 
@@ -92,12 +92,12 @@ fn main() {
                 let t = lattice_time(r);
                 let res = catch(|| {
                     let tt = time(t);
-                    let s = tt.secs();
-                    let n = tt.subsec_nanos();
-                    // subnano is crate-private: take it from the public bits
-                    let f = (tt.nanos().to_bits() & 0xffff_ffff) >> 16;
-                    let back = Time::from_fixed_nanos(s as i128 * 1_000_000_000i128 + n as i128);
-                    vec![zu(s as u128), zu(n as u128), zu(f), tzu(back)]
+                    // the library's own Time -> WireTimestamp (+ subnano) -> Time path
+                    // (crate-private types, reached through the cfg(statime_verif) hook)
+                    let (s, n, f) = statime::verif::time_to_wire_timestamp(tt);
+                    assert_eq!((s, n), (tt.secs(), tt.subsec_nanos()));
+                    let back = statime::verif::wire_timestamp_to_time(s, n);
+                    vec![zu(s as u128), zu(n as u128), z(f), tzu(back)]
                 });
                 ("wire_rt".into(), format!("(WireRT {}, {}, {})", zu(t), rel(), out(res)))
             }
@@ -115,7 +115,7 @@ fn main() {
                     _ => r.next() as u32,
                 };
                 let res = catch(|| {
-                    let t = Time::from_fixed_nanos(s as i128 * 1_000_000_000i128 + n as i128);
+                    let t = statime::verif::wire_timestamp_to_time(s, n);
                     vec![tzu(t)]
                 });
                 ("from_wire".into(), format!("(FromWire {} {}, {}, {})", s, n, rel(), out(res)))
@@ -158,12 +158,10 @@ fn main() {
                     _ => r.next() as i64,
                 };
                 let res = catch(|| {
-                    let d: Duration = Duration::from_fixed_nanos(I48F16::from_bits(i));
-                    // Duration -> TimeInterval is `(bits >> 16) as i64` (crate-private type):
-                    // observe it through the public serde representation of the port data set
-                    // is not possible here, so use the same public conversion path the
-                    // library uses for correction fields: nanos().to_bits() >> 16.
-                    let back = (d.nanos().to_bits() >> 16) as i64;
+                    // TimeInterval -> Duration -> TimeInterval through the library's own
+                    // From impls (cfg(statime_verif) hook)
+                    let d: Duration = statime::verif::time_interval_to_duration(i);
+                    let back = statime::verif::duration_to_time_interval(d);
                     vec![db(d), z(back)]
                 });
                 ("ti_rt".into(), format!("(TiRT {}, {}, {})", z(i), rel(), out(res)))
@@ -171,8 +169,8 @@ fn main() {
             6 => {
                 let d = lattice_dur(r);
                 let res = catch(|| {
-                    let i = (dur(d).nanos().to_bits() >> 16) as i64;
-                    let d2: Duration = Duration::from_fixed_nanos(I48F16::from_bits(i));
+                    let i = statime::verif::duration_to_time_interval(dur(d));
+                    let d2: Duration = statime::verif::time_interval_to_duration(i);
                     vec![z(i), db(d2)]
                 });
                 ("dur_to_ti".into(), format!("(DurToTi {}, {}, {})", z(d), rel(), out(res)))
